@@ -43,3 +43,13 @@ mut("C14", "unpack-u16le-no-bounds-test", [("librfn/pack.c", "\tUNPACK(pack, p, 
 mut("C14", "decode-hides-overrun", [("librfn/wavheader.c", "\t * the return value will be larger than the value supplied.\n\t */\n\treturn sz - rf_pack_remaining(&pack);\n}\n\nint rf_wavheader_encode", "\t * the return value will be larger than the value supplied.\n\t */\n\treturn rf_pack_remaining(&pack) < 0 ? (int) sz : (int) (sz - rf_pack_remaining(&pack));\n}\n\nint rf_wavheader_encode")], r"truncating|number of bytes|postcondition")
 mut("C14", "decode-F4-reverted", [("librfn/wavheader.c", "\tif (wh->fmt_chunk_size > 0x7fffff00)\n\t\treturn -EINVAL;\n", "")], r"C14 decode returns|number of bytes|wrapped length")
 mut("C14", "tostring-F5-reverted", [("librfn/wavheader.c", "wh->block_align ?\n\t\t\t\twh->data_chunk_size / wh->block_align : 0,", "wh->data_chunk_size / wh->block_align,")], r"division")
+
+# C13
+mut("C13", "init-fmt-size-swapped", [("librfn/wavheader.c", "wh->fmt_chunk_size = (format == RF_WAVHEADER_FLOAT ? 18 : 16);", "wh->fmt_chunk_size = (format == RF_WAVHEADER_FLOAT ? 16 : 18);")], r"C13 init|rf_wavheader_init")
+mut("C13", "set-num-frames-no-subtract", [("librfn/wavheader.c", "\twh->chunk_size -= wh->data_chunk_size;\n", "")], r"set_num_frames")
+mut("C13", "init-F3-chunk-size-reverted", [("librfn/wavheader.c", "\twh->chunk_size = 4 + (8 + wh->fmt_chunk_size) + 8;", "\twh->chunk_size = 12 + 18 + 12 + 8;"), ("librfn/wavheader.c", "\t\twh->chunk_size += 12; // fact chunk\n", "")], r"RIFF chunk size|rf_wavheader_init")
+mut("C13", "init-F3-memset-reverted", [("librfn/wavheader.c", "\tmemset(wh, 0, sizeof(*wh));\n\n\tmemcpy(wh->chunk_id, riff, 4);", "\tmemcpy(wh->chunk_id, riff, 4);")], r"no stale field|rf_wavheader_init")
+mut("C13", "set-num-frames-F3b-reverted", [("librfn/wavheader.c", "\tif (0 == memcmp(fact, wh->fact_chunk_id, 4))\n\t\twh->sample_length", "\twh->sample_length")], r"set_num_frames")
+mut("C13", "encode-ext-order", [("librfn/wavheader.c", "\t\t\trf_pack_u16le(&pack, wh->valid_bits_per_sample);\n\t\t\trf_pack_u32le(&pack, wh->channel_mask);", "\t\t\trf_pack_u32le(&pack, wh->channel_mask);\n\t\t\trf_pack_u16le(&pack, wh->valid_bits_per_sample);")], r"reproduces exactly")
+mut("C13", "init-block-align-s32", [("librfn/wavheader.c", "uint8_t bytes_per_sample = (format == RF_WAVHEADER_S16LE ? 2 : 4);", "uint8_t bytes_per_sample = (format == RF_WAVHEADER_FLOAT ? 4 : 2);")], r"C13 init|rf_wavheader_init")
+mut("C13", "decode-fact-swallows-data-id", [("librfn/wavheader.c", "\t\twh->sample_length = rf_unpack_u32le(&pack);\n\n\t\trf_unpack_bytes(&pack, wh->data_chunk_id, 4);", "\t\twh->sample_length = rf_unpack_u32le(&pack);\n\n\t\trf_unpack_bytes(&pack, wh->data_chunk_id, 4);\n\t\tif (wh->fact_chunk_size > 12)\n\t\t\tmemcpy(wh->data_chunk_id, data, 4);")], r"reproduces exactly")
